@@ -63,7 +63,8 @@ class Func:
 
     @property
     def is_property(self):
-        return any(d == "property" or d.endswith(".setter") for d in self.decorators)
+        return any(d in ("property", "cached_property", "functools.cached_property") or d.endswith(".setter")
+                   for d in self.decorators)
 
     @property
     def is_static(self):
@@ -79,7 +80,7 @@ class Func:
 
     @property
     def is_cached(self):
-        return any("lru_cache" in d for d in self.decorators)
+        return any("lru_cache" in d or "cached_property" in d or d in ("cache", "functools.cache") for d in self.decorators)
 
     @property
     def file(self):
